@@ -34,8 +34,8 @@ Extraction "model.ml"
   ripemd160 hash160
   sign0 finalize0 maybe_finalize0 finalize_all0 maybe_finalize_all0 extract0 hop0_st
   sign2 sign_tap_key2 sign_tap_script2 finalize2 maybe_finalize2 finalize_all2 maybe_finalize_all2
-  extract2 unsigned_tx2 hop2_st strip_tx satisfies empty_pin
-  bl_party_step bl_balanced bl_sc bl_enc b0_blind b0_balanced
+  extract2 unsigned_tx2 hop2_st strip_tx satisfies empty_pin add_input2 add_witness_utxo2 new_pin2
+  bl_party_step bl_new_blinder bl_blind bl_unblind_inputs bl_balanced bl_sc bl_enc b0_blind b0_balanced
   assemble_c cb_root_c parse_cb parse_cb_c ser_cb to_cb tapleaf_kv parse_tapleaf_kv_c verify_with_oracle
   tweak_priv tweak_scalar scalar_of_bytes scalar_to_bytes x_on_curve tnode_hash leaf_hash
   vs_validate_input vs_validate_all vs_disasm
